@@ -134,6 +134,7 @@ def run_in_child(fn, job, timeout):
 def _zygote_main(conn: Connection, module: str, timeout: float):
     mod = importlib.import_module(module)
     broken = None
+    warm_failed = None
     if hasattr(mod, 'warmup'):
         # Rehearse the warm-up in a throw-away child first: if the tree under test crashes or hangs already there, every
         # job of this zygote is answered with that abnormal end (a violation for the engine to classify), instead of the
@@ -144,8 +145,14 @@ def _zygote_main(conn: Connection, module: str, timeout: float):
             return {'violations': list(found or []), 'digest': 'warmup', 'steps': 0, 'keys': []}
 
         probe = run_in_child(rehearse, {'warmup': True}, max(timeout, 120))
-        if probe.get('abnormal') or probe.get('harness_error') or (probe.get('result') or {}).get('violations'):
+        if probe.get('abnormal') or (probe.get('result') or {}).get('violations'):
             broken = probe
+        elif probe.get('harness_error'):
+            # An exception in harness code during the warm-up.  On the unchanged tree that is a harness defect; on a tree
+            # that violates the property it can be a consequence (a warm-up history tripping over state an earlier one
+            # left behind).  Report it once, then serve jobs from an un-warmed process: the driver keeps exploring for a
+            # grace period and reports a violation if one shows, the harness failure otherwise.
+            warm_failed = probe
         else:
             mod.warmup()
     gc.collect()
@@ -162,6 +169,10 @@ def _zygote_main(conn: Connection, module: str, timeout: float):
         t = job.pop('_timeout', None) or timeout
         if broken is not None:
             conn.send(dict(broken, job=job, progress={'site': 'warmup'}))
+            continue
+        if warm_failed is not None:
+            conn.send(dict(warm_failed, job=job, progress={'site': 'warmup'}))
+            warm_failed = None
             continue
         try:
             out = run_in_child(fn, job, t)
